@@ -4,14 +4,17 @@
     matcher calls (route id, keys, values, answer), the selected rule and the
     captures after Execute.
 
-    v_corr : the model predicts exactly the observation.
-    v_prop : on the implementation's observation — every matcher answer equals the
-             specification's answer for that route and request, no panic, and the
-             captures / encoded-slash rejection of the selected route are the specified ones.
-    v_guards : finding guards (computed from the input and the model's own trace)
-             explaining the failing requests; empty if some failing request is unexplained. *)
+    v_corr : the model predicts what the statement talks about: rule set accepted / rejected, and per
+             request the selected rule (or none / panic), the captures, the encoded-slash rejection and the
+             sequence of (route, answer) of the matcher calls.  Keys and values handed to the matchers are
+             NOT compared (they are the subject of the theorems and show in the answers and captures).
+    v_prop : built from the specification alone, on the implementation's observation — every matcher answer
+             equals the specification's answer for that route and request, no panic, and the captures /
+             encoded-slash rejection of the selected route are the specified ones; additionally every
+             (pattern, value) pair the specification needs must be in the recorded engine table (a miss fails).
+    v_guards : none — no finding is open. *)
 From HV Require Export Base.Prelude C03.Model C03.Spec.
-From HV Require Import C03.Proofs C03.ProofsTree.   (* the finding guards are the ones of the theorems *)
+From HV Require Import C03.Proofs C03.ProofsTree.
 Open Scope string_scope.
 Open Scope list_scope.
 
@@ -29,6 +32,35 @@ Definition eng_of (tbl : list oentry) : engine :=
   fun h t p v =>
     existsb (fun e => Bool.eqb (oe_host e) h && mtype_eqb (oe_type e) t &&
                       String.eqb (oe_pat e) p && String.eqb (oe_val e) v && oe_ans e) tbl.
+
+(** is the engine's answer on this (pattern, value) pair recorded? *)
+Definition oracle_has (tbl : list oentry) (h : bool) (t : mtype) (p v : string) : bool :=
+  existsb (fun e => Bool.eqb (oe_host e) h && mtype_eqb (oe_type e) t &&
+                    String.eqb (oe_pat e) p && String.eqb (oe_val e) v) tbl.
+Definition tm_known (tbl : list oentry) (for_host : bool) (d : tmdef) (v : string) : bool :=
+  match tm_type d with
+  | TGlob | TRegex => oracle_has tbl for_host (tm_type d) (tm_value d) v
+  | _ => true
+  end.
+
+(** everything the specification asks the engines about this call is in the table *)
+Definition call_known (otbl : list oentry) (tbl : list sroute) (q : request) (k : call) : bool :=
+  match nth_error tbl (k_vid k) with
+  | None => true
+  | Some s =>
+    match sr_segs s q with
+    | None => true
+    | Some segs =>
+      forallb (fun h => tm_known otbl true h (q_host q)) (rl_hosts (sr_def s)) &&
+      forallb (fun p => match assoc_first (pp_name p) (declared_names (sr_tokens s)) segs with
+                        | Some v => match spec_decode (keep_slash_of (rl_slash (sr_def s))) v with
+                                    | Some d => tm_known otbl false (pp_tm p) d
+                                    | None => true
+                                    end
+                        | None => true
+                        end) (rt_params (sr_route s))
+    end
+  end.
 
 (** property on one observed matcher call *)
 Definition call_ok (eng : engine) (tbl : list sroute) (q : request) (k : call) : bool :=
@@ -79,91 +111,31 @@ Definition outcome_ok (tbl : list sroute) (q : request) (cs : list call) (o : ou
     end
   end.
 
-Definition req_prop (eng : engine) (tbl : list sroute) (o : reqobs) : bool :=
+Definition req_prop (otbl : list oentry) (eng : engine) (tbl : list sroute) (o : reqobs) : bool :=
+  forallb (call_known otbl tbl (ro_req o)) (ro_calls o) &&
   forallb (call_ok eng tbl (ro_req o)) (ro_calls o) && outcome_ok tbl (ro_req o) (ro_calls o) (ro_out o).
 
-(* ---- finding guards, per request: the guards of the theorems (C03/Proofs.v, C03/ProofsTree.v),
-        evaluated on the input and on the routes the model's own trace consults *)
+(** the part of a call trace the statement talks about *)
+Definition call_proj (k : call) : nat * mres := (k_vid k, k_res k).
+Definition proj_eqb (a b : nat * mres) : bool := Nat.eqb (fst a) (fst b) && mres_eqb (snd a) (snd b).
 
-Definition g_call (fx1 fx2 fx4 fx6 : bool) (fx7 : dec) (eng : engine) (tbl : list sroute) (q : request) (k : call) : list Z :=
-  match nth_error tbl (k_vid k) with
-  | None => []
-  | Some s =>
-    let d := sr_def s in
-    let ps := rt_params (sr_route s) in
-    let names := declared_names (sr_tokens s) in
-    match sr_segs s q with
-    | None => []
-    | Some segs =>
-      guards [
-        (1%Z, guard_F1 fx1 eng (rl_hosts d) q);
-        (2%Z, negb fx2 && guard_F2_params s);
-        (3%Z, guard_F3 tbl s && negb (is_nil ps));   (* the renamed keys reach the path_params of the route *)
-        (4%Z, guard_F4 fx4 (rl_methods d));
-        (6%Z, on_params (guard_F6 fx6) (rl_slash d) q names segs ps);
-        (7%Z, on_params (guard_F7 fx7) (rl_slash d) q names segs ps);
-        (8%Z, on_params (guard_F8 fx7) (rl_slash d) q names segs ps)
-      ]
-    end
-  end.
-
-Definition g_req (fx1 fx2 fx4 fx5 fx6 : bool) (fx7 : dec) (eng : engine) (es : list centry) (t : tree) (tbl : list sroute) (q : request)
-           (mcalls : list call) (mout : outcome) : list Z :=
-  concat (map (g_call fx1 fx2 fx4 fx6 fx7 eng tbl q) mcalls) ++
-  guards [ (5%Z, negb fx5 && guard_F5 fx1 fx2 fx6 fx7 eng es t q) ] ++
-  match mout, matched_vid mcalls with
-  | ORule _ _ _, Some v =>
-    match nth_error tbl v with
-    | Some s =>
-      match sr_segs s q with
-      | Some segs =>
-        let sl := rl_slash (sr_def s) in
-        let pairs := named_pairs (declared_names (sr_tokens s)) segs in
-        guards [
-          (3%Z, guard_F3 tbl s);
-          (7%Z, req_guard_F7 fx7 sl q || caps_guard_F7 fx7 sl pairs);
-          (8%Z, caps_guard_F8 fx7 sl pairs)
-        ]
-      | None => []
-      end
-    | None => []
-    end
-  | _, _ => []
-  end.
-
-Fixpoint zmem (x : Z) (l : list Z) : bool :=
-  match l with [] => false | y :: r => Z.eqb x y || zmem x r end.
-Fixpoint zdedup (l : list Z) : list Z :=
-  match l with [] => [] | x :: r => if zmem x r then zdedup r else x :: zdedup r end.
-
-Definition loadobs_eqb (a b : loadobs) : bool :=
-  match a, b with
-  | OCreateFailed, OCreateFailed | OAddFailed, OAddFailed | OLoaded, OLoaded => true
-  | _, _ => false
-  end.
+(** accepted or rejected; at which stage a rule set is rejected is not part of the statement *)
+Definition rejected_obs (a : loadobs) : bool := match a with OLoaded => false | _ => true end.
 
 Definition check (fx1 fx2 fx3 fx4 fx5 fx6 : bool) (fx7 : dec) (c : case) : verdict :=
   let eng := eng_of (c_oracle c) in
   let tbl := flat_routes 0 (c_rules c) in
   (* the property on whatever the implementation served, also when the model refuses the rule set *)
-  let obs_prop := forallb (req_prop eng tbl) (c_reqs c) in
+  let obs_prop := forallb (req_prop (c_oracle c) eng tbl) (c_reqs c) in
   match load fx3 fx4 (c_rules c) with
-  | CreateFailed => {| v_corr := loadobs_eqb (c_load c) OCreateFailed; v_prop := obs_prop; v_guards := [] |}
-  | AddFailed => {| v_corr := loadobs_eqb (c_load c) OAddFailed; v_prop := obs_prop; v_guards := [] |}
-  | ModelFuel => {| v_corr := false; v_prop := obs_prop; v_guards := [] |}
   | Loaded es t =>
-    let rows := map (fun o =>
+    let corr := forallb (fun o =>
                   let '(mout, mcalls) := serve fx1 fx2 fx5 fx6 fx7 eng es t (ro_req o) in
-                  let ok := req_prop eng tbl o in
-                  (outcome_eqb mout (ro_out o) && list_eqb call_eqb mcalls (ro_calls o),
-                   ok,
-                   (* guards are only needed (and only computed) for a request whose property fails *)
-                   if ok then [] else g_req fx1 fx2 fx4 fx5 fx6 fx7 eng es t tbl (ro_req o) mcalls mout)) (c_reqs c) in
-    let failing := filter (fun r => negb (snd (fst r))) rows in
-    {| v_corr := loadobs_eqb (c_load c) OLoaded && forallb (fun r => fst (fst r)) rows;
-       v_prop := is_nil failing;
-       v_guards := if forallb (fun r => negb (is_nil (snd r))) failing
-                   then zdedup (concat (map snd failing)) else [] |}
+                  outcome_eqb mout (ro_out o) &&
+                  list_eqb proj_eqb (map call_proj mcalls) (map call_proj (ro_calls o))) (c_reqs c) in
+    {| v_corr := negb (rejected_obs (c_load c)) && corr; v_prop := obs_prop; v_guards := [] |}
+  | ModelFuel => {| v_corr := false; v_prop := obs_prop; v_guards := [] |}
+  | _ => {| v_corr := rejected_obs (c_load c); v_prop := obs_prop; v_guards := [] |}
   end.
 
 (* ---- short constructors for the generated case files *)
